@@ -71,6 +71,13 @@ func genChunker(t *rapid.T) chunkerSpec {
 	case 1:
 		return chunkerSpec{"rabin-20-40-100", 0, "rabin-mma"}
 	case 2:
+		if rapid.Bool().Draw(t, "rabintight") {
+			// narrow min/avg/max windows: chunk sizes vary by a few bytes only, in changing arrangements
+			mn := rapid.IntRange(16, 40).Draw(t, "rmin")
+			av := mn + rapid.IntRange(1, 4).Draw(t, "ravg")
+			mx := av + rapid.IntRange(1, 6).Draw(t, "rmax")
+			return chunkerSpec{fmt.Sprintf("rabin-%d-%d-%d", mn, av, mx), 0, "rabin-tight"}
+		}
 		k := rapid.IntRange(32, 200).Draw(t, "rabinavg")
 		return chunkerSpec{fmt.Sprintf("rabin-%d", k), 0, "rabin-avg"}
 	case 3:
